@@ -35,6 +35,9 @@ def check(ctx):
     from . import c08
     with ctx.only(lambda k: k in ("resolve", "resolve/for-type", "resolve/path-key")):
         c08.check(ctx)
+    # `... and recursively for its ancestors` is a UNION over all ancestors: the flattening must extend, never replace or keep-first
+    with ctx.only(lambda k: k.startswith("flatten/") or k.startswith("key-multiplicity/")):
+        c08.flatten(ctx)
     # substitutes: operation + parse-before-mutate
     PARSE = "TypeSubstitutes::parse_path_substitution(P1,P2.0)?"
     expect_fn(ctx, "C16.2", "substitutes/insert", "TypeSubstitutes::insert", "{HashMap::insert(P0.substitutes,%s.0,%s.1);Ok(())}" % (PARSE, PARSE),
